@@ -285,6 +285,8 @@ class ModeDReader(MeterReaderBase[DataReadout]):
         while True:
             line = self._buffer.pop()
             if line is None:
+                # Drop consumed lines, so only an incomplete line is carried over to the next call.
+                self._buffer.trim_buffer_to_current_position()
                 return readouts_received
 
             if self.is_in_hunt_mode:
